@@ -1491,3 +1491,29 @@ mod tests {
             .expect("package ID is valid")
     }
 }
+
+/// Verification hooks (`--cfg nextest_verif`): expose `process_output` on caller-supplied
+/// listings.
+#[cfg(nextest_verif)]
+pub mod verif_test_list {
+    use super::*;
+
+    /// Runs the real `TestList::process_output` and returns `(name, ignored, filter_match)` in
+    /// map order.
+    pub fn process_output<'g>(
+        test_binary: RustTestArtifact<'g>,
+        filter: &TestFilterBuilder,
+        ecx: &EvalContext<'_>,
+        bound: FilterBound,
+        non_ignored: &str,
+        ignored: &str,
+    ) -> Result<Vec<(String, bool, FilterMatch)>, CreateTestListError> {
+        let (_, suite) =
+            TestList::process_output(test_binary, filter, ecx, bound, non_ignored, ignored)?;
+        Ok(suite
+            .status
+            .test_cases()
+            .map(|(name, case)| (name.to_owned(), case.ignored, case.filter_match))
+            .collect())
+    }
+}
